@@ -764,3 +764,174 @@ Proof.
     rewrite Hp0. rewrite (IH Hr). cbn [fst snd app rev]. rewrite zlen_cons. change (zlen (@nil Z)) with 0.
     replace (pos + (1 + 0)) with (pos + 1) by lia. reflexivity.
 Qed.
+
+(* items render to tokeniser-shaped bodies *)
+Lemma body_ok_skip p : forall R lit rem, no_byte 0 [] = true ->
+  body_ok (p ++ R) lit rem (zlen p) = body_ok R lit rem 0.
+Proof.
+  induction p as [|x p IH]; intros R lit rem H; [reflexivity|].
+  cbn [app body_ok]. rewrite zlen_cons. pose proof (zlen_nonneg p). destruct (0 <? 1 + zlen p) eqn:E; [|lia].
+  replace (1 + zlen p - 1) with (zlen p) by lia. apply IH. exact H.
+Qed.
+Lemma body_ok_lit s : no_byte 34 s = true -> no_byte 0 s = true -> forall R,
+  body_ok (s ++ R) true false 0 = body_ok R true false 0.
+Proof.
+  induction s as [|x s IH]; intros H34 H0 R; [reflexivity|].
+  cbn [no_byte forallb] in H34, H0. apply andb_true_iff in H34 as [Hx Hs]. apply andb_true_iff in H0 as [Hx0 Hs0].
+  apply negb_true_iff in Hx, Hx0. cbn [app body_ok]. change (0 <? 0) with false. cbv iota. rewrite Hx0, Hx.
+  cbn [negb andb orb]. rewrite andb_false_r. cbn [orb]. apply IH; assumption.
+Qed.
+Lemma body_ok_rem s : no_byte 0 s = true -> forall lit, body_ok s lit true 0 = true.
+Proof.
+  induction s as [|x s IH]; intros H0 lit; [reflexivity|].
+  cbn [no_byte forallb] in H0. apply andb_true_iff in H0 as [Hx0 Hs0]. apply negb_true_iff in Hx0.
+  cbn [body_ok]. change (0 <? 0) with false. cbv iota. rewrite Hx0.
+  destruct (x =? 34).
+  - rewrite orb_true_r. apply IH. exact Hs0.
+  - destruct ((x =? tk_REM) && negb lit); rewrite orb_true_r; apply IH; exact Hs0.
+Qed.
+
+Lemma items_body_ok its : items_ok its = true -> body_ok (render its) false false 0 = true.
+Proof.
+  induction its as [|it r IH]; intros Hok; [reflexivity|].
+  cbn [items_ok] in Hok. apply andb_true_iff in Hok as [Hit Hr]. specialize (IH Hr).
+  unfold render. cbn [flat_map]. fold (render r).
+  destruct it as [s closed|s|c p|j|c].
+  - apply andb_true_iff in Hit as [Hit Hlast]. apply andb_true_iff in Hit as [Hit H34]. apply andb_true_iff in Hit as [Hb H0].
+    cbn [render1 app body_ok]. change (0 <? 0) with false. cbv iota. change (34 =? 0) with false. cbv iota.
+    change (34 =? 34) with true. cbv iota. cbn [negb orb].
+    destruct closed.
+    + rewrite <- app_assoc. rewrite (body_ok_lit s H34 H0). cbn [app body_ok].
+      change (0 <? 0) with false. cbv iota. change (34 =? 0) with false. cbv iota. change (34 =? 34) with true. cbv iota.
+      cbn [negb orb]. change (tk_plus_bytes 34) with 0. exact IH.
+    + destruct r as [|it2 r2]; [|cbn in Hlast; discriminate]. cbn [render flat_map app]. rewrite app_nil_r.
+      rewrite (body_ok_lit s H34 H0 []). reflexivity.
+  - apply andb_true_iff in Hit as [Hit Hlast]. apply andb_true_iff in Hit as [Hb H0].
+    destruct r as [|it2 r2]; [|discriminate]. cbn [render1 render flat_map app body_ok]. rewrite app_nil_r.
+    change (0 <? 0) with false. cbv iota. change (tk_REM =? 0) with false. cbv iota.
+    change (tk_REM =? 34) with false. cbv iota. change (tk_REM =? tk_REM) with true. cbn [andb negb orb].
+    apply body_ok_rem. exact H0.
+  - apply andb_true_iff in Hit as [Hit Hpb]. apply andb_true_iff in Hit as [Hit Hlen]. apply andb_true_iff in Hit as [Hit Hpos].
+    apply andb_true_iff in Hit as [Hcb Hpl]. destruct (plain_facts c Hpl) as [E0 [E34 [Er Eu]]]. apply Z.eqb_eq in Hlen.
+    cbn [render1 app body_ok]. change (0 <? 0) with false. cbv iota. rewrite E0, E34, Er. cbn [andb orb]. cbv iota.
+    rewrite <- Hlen. rewrite body_ok_skip by reflexivity. exact IH.
+  - cbn [render1 le2 app body_ok]. change (0 <? 0) with false. cbv iota.
+    change (tk_T_UINT =? 0) with false. change (tk_T_UINT =? 34) with false. change (tk_T_UINT =? tk_REM) with false.
+    cbn [andb orb]. cbv iota. change (tk_plus_bytes tk_T_UINT) with 2.
+    change (0 <? 2) with true. cbv iota. change (2 - 1) with 1. change (0 <? 1) with true. cbv iota. change (1 - 1) with 0.
+    exact IH.
+  - apply andb_true_iff in Hit as [Hit Hp0]. apply andb_true_iff in Hit as [Hcb Hpl].
+    destruct (plain_facts c Hpl) as [E0 [E34 [Er Eu]]]. apply Z.eqb_eq in Hp0.
+    cbn [render1 app body_ok]. change (0 <? 0) with false. cbv iota. rewrite E0, E34, Er. cbn [andb orb]. cbv iota.
+    rewrite Hp0. exact IH.
+Qed.
+
+(* ------------------------------------------------------------------ the old -> new map *)
+Lemma lookup_o2n_nth (ks : list Z) : NoDup ks -> forall new step i k,
+  nth_error ks i = Some k ->
+  lookup k (combine ks (seqz new step (length ks))) = Some (new + Z.of_nat i * step).
+Proof.
+  induction ks as [|k0 r IH]; intros Hnd new step i k Hi; [destruct i; discriminate|].
+  inversion Hnd as [|? ? Hk0 Hr]; subst. cbn [length seqz combine lookup].
+  destruct i as [|i]; cbn [nth_error] in Hi.
+  - inversion Hi; subst. rewrite Z.eqb_refl. f_equal. cbn. lia.
+  - assert (k <> k0) by (intros ->; apply Hk0; eapply nth_error_In; exact Hi).
+    destruct (k =? k0) eqn:E; [apply Z.eqb_eq in E; contradiction|].
+    rewrite (IH Hr (new + step) step i k Hi). f_equal. rewrite Nat2Z.inj_succ. ring.
+Qed.
+Lemma lookup_notin k (d : list (Z * Z)) : ~ In k (keys d) -> lookup k d = None.
+Proof.
+  induction d as [|[k0 v0] r IH]; intros H; [reflexivity|]. cbn [keys map fst In] in H. cbn [lookup].
+  destruct (k =? k0) eqn:E; [apply Z.eqb_eq in E; subst; tauto|]. apply IH. tauto.
+Qed.
+
+Lemma new_number_renumbered ls start new step i k : StronglySorted Z.lt (nums ls) ->
+  nth_error (nums (rn_part start ls)) i = Some k ->
+  new_number (o2n_of (rn_part start ls) new step) k = new + Z.of_nat i * step.
+Proof.
+  intros Hs Hi. unfold new_number, o2n_of.
+  replace (length (rn_part start ls)) with (length (nums (rn_part start ls))) by (unfold nums; apply map_length).
+  assert (Hnd : NoDup (nums (rn_part start ls))) by (apply sorted_NoDup; unfold rn_part; apply sorted_filter; exact Hs).
+  rewrite (lookup_o2n_nth (nums (rn_part start ls)) Hnd new step i k Hi). reflexivity.
+Qed.
+Lemma new_number_other ls start new step k : ~ In k (nums (rn_part start ls)) ->
+  new_number (o2n_of (rn_part start ls) new step) k = k.
+Proof.
+  intros H. unfold new_number. rewrite lookup_notin; [reflexivity|]. unfold o2n_of.
+  rewrite keys_combine; [exact H|]. rewrite length_seqz. unfold nums. rewrite map_length. reflexivity.
+Qed.
+
+(* ------------------------------------------------------------------ Interpreter.renum_ *)
+Theorem renum_cmd_ok c s ls tail tr new start step :
+  cfg_ok c -> abs_ok c s ls tail -> tail_ok tail -> Forall (fun l : line => fst l < 65535) ls ->
+  0 <= new -> 0 <= start <= 65535 -> accepted ls new start step ->
+  exists r, renum_cmd s tr (Some new) (Some start) (Some step)
+            = Ok (r, {| on_error := remap (r_o2n r) (on_error tr); gosubs := map (remap (r_o2n r)) (gosubs tr) |})
+    /\ r_o2n r = o2n_of (rn_part start ls) new step
+    /\ abs_ok c (r_prog r) (fst (renum_lines c s ls new start step)) tail
+    /\ r_reports r = reports_of (lines s) (snd (renum_lines c s ls new start step)).
+Proof.
+  intros Hcfg Habs Htail Hlt Hnew Hstart Hacc.
+  destruct (renum_ok c s ls tail new start step Hcfg Habs Htail Hlt Hnew Hstart Hacc) as [r [Hr [H1 [H2 H3]]]].
+  exists r. split; [|auto]. unfold renum_cmd. destruct Hacc as [Hstep _].
+  destruct (step <? 1) eqn:E; [lia|]. rewrite Hr. reflexivity.
+Qed.
+
+Theorem renum_cmd_accepts_only c s ls tail tr new start step x :
+  abs_ok c s ls tail -> Forall (fun l : line => fst l < 65535) ls -> 0 <= start <= 65535 ->
+  renum_cmd s tr (Some new) (Some start) (Some step) = Ok x -> accepted ls new start step.
+Proof.
+  intros Habs Hlt Hstart H. unfold renum_cmd in H. destruct (step <? 1) eqn:E; [discriminate|].
+  destruct (renum s (Some new) (Some start) (Some step)) as [r| | |] eqn:Er; try discriminate.
+  unfold renum in Er. destruct (renum_assign (lines s) new start step) as [o| | |] eqn:Ea; try discriminate.
+  destruct (renum_assign_spec c s ls tail new start step Habs Hlt ltac:(lia) ltac:(lia)) as [_ [Hok _]].
+  exact (Hok o Ea).
+Qed.
+
+(* ------------------------------------------------------------------ numbers and positions after RENUM *)
+Lemma map_snd_combine {A B} (a : list A) (b : list B) : length a = length b -> map snd (combine a b) = b.
+Proof.
+  revert b; induction a as [|x r IH]; intros [|y b] H; try discriminate; [reflexivity|].
+  cbn [combine map snd]. f_equal. apply IH. cbn in H. lia.
+Qed.
+
+Lemma renum_lines_shape c s ls new start step :
+  StronglySorted Z.lt (nums ls) -> Forall (fun l : line => wf_body (snd l) = true) ls ->
+  nums (fst (renum_lines c s ls new start step))
+    = nums (keep_part start ls) ++ seqz new step (length (rn_part start ls))
+  /\ map snd (idx 0 (fst (renum_lines c s ls new start step))) = map snd (idx 0 ls).
+Proof.
+  intros Hs Hb. unfold renum_lines.
+  set (rn := rn_part start ls). set (keep := keep_part start ls). set (news := seqz new step (length rn)).
+  assert (Hlen : length news = length rn) by apply length_seqz.
+  assert (Hb2 : Forall (fun l : line => wf_body (snd l) = true) (keep ++ renumber rn news)).
+  { apply Forall_app. split; [apply Forall_filter; exact Hb|].
+    apply (bodies_renumber (fun b => wf_body b = true)); [exact Hlen | apply Forall_filter; exact Hb]. }
+  split.
+  - rewrite rw_prog_nums. unfold nums. rewrite map_app. fold (nums keep). fold (nums (renumber rn news)).
+    rewrite nums_renumber by exact Hlen. reflexivity.
+  - rewrite rw_prog_idx by exact Hb2. replace (idx 0 ls) with (idx 0 (keep ++ rn)) by (unfold keep, rn; rewrite <- (split2 ls start Hs); reflexivity).
+    rewrite !idx_app, !map_app. f_equal. rewrite idx_renumber by exact Hlen.
+    apply map_snd_combine. rewrite map_length, length_idx. exact Hlen.
+Qed.
+
+(* a reference is reported iff it is not exempt and its target is not a line of the program *)
+Lemma reported_spec c s ls tail new start step bef j :
+  abs_ok c s ls tail -> 0 <= j <= 65535 ->
+  reported (lines s) (o2n_of (rn_part start ls) new step) bef j
+  = negb (exempt bef j) && negb (member j (nums ls)).
+Proof.
+  intros Habs Hj. unfold reported. f_equal.
+  assert (Hk : member j (keys (lines s)) = member j (nums ls)).
+  { destruct (member j (nums ls)) eqn:E.
+    - apply member_In. apply (keys_abs c s ls tail j Habs). left. apply member_In. exact E.
+    - destruct (member j (keys (lines s))) eqn:E2; [|reflexivity]. apply member_In in E2.
+      apply (keys_abs c s ls tail j Habs) in E2 as [E2|E2]; [apply member_In in E2; congruence | lia]. }
+  destruct (lookup j (o2n_of (rn_part start ls) new step)) as [n|] eqn:El; [|rewrite Hk; reflexivity].
+  symmetry. apply negb_false_iff. apply member_In.
+  assert (Hin : In j (keys (o2n_of (rn_part start ls) new step))).
+  { destruct (in_dec Z.eq_dec j (keys (o2n_of (rn_part start ls) new step))) as [H|H]; [exact H|].
+    rewrite (lookup_notin _ _ H) in El. discriminate. }
+  unfold o2n_of in Hin. rewrite keys_combine in Hin by (rewrite length_seqz; unfold nums; rewrite map_length; reflexivity).
+  unfold rn_part in Hin. rewrite (nums_filter (fun k => start <=? k)) in Hin. apply filter_In in Hin as [Hin _]. exact Hin.
+Qed.
